@@ -250,6 +250,18 @@ func (y *c18YieldWriter) Write(p []byte) (int, error) {
 	return y.buf.Write(p)
 }
 
+// c18CoreSers: indices of the serializer calls used for the 3-thread and 2-call scenarios.
+func c18CoreSers() []int {
+	var out []int
+	for i, s := range c18Sers {
+		switch s.name {
+		case "Bundle.WriteTo(b1)", "Bundle.WriteTo(b2)", "Exchange.Write(1b3)", "DumpSignedMessage(1b1)", "CertChain.Write", "IntegrityBlock.CborBytes", "mice.Encode(draft03)", "cbor.EncodeMap":
+			out = append(out, i)
+		}
+	}
+	return out
+}
+
 // c18FailingWriter accepts Write calls until the failAt-th, which fails (as do all later ones).
 type c18FailingWriter struct {
 	calls, failAt int
@@ -439,9 +451,11 @@ func init() {
 				w.ex[v].ResponseHeaders.Set("Content-Type", "image/png")
 			}
 		}},
-		{name: "mutate: payload[0]^=1, subset date+1, attrs value changed, pl param changed", ser: -1, mut: func(w *c18World) {
-			w.payload[0] ^= 1
-			w.subset.Date = w.subset.Date.Add(time.Second)
+		{name: "mutate: payload[0]=#, subset date+1, attrs value changed, pl param changed", ser: -1, mut: func(w *c18World) {
+			// (every mutation is idempotent: applying it twice leaves the same logical state,
+			// which the injectivity oracle below relies on)
+			w.payload[0] = '#'
+			w.subset.Date = c18Date.Add(time.Second)
 			w.attrs[integrityblock.Ed25519publicKeyAttributeName] = []byte(fixtures.Ed3.Pub)
 			w.pl[0].Params["sig"] = []byte("other")
 			w.ib.SignatureStack[0].Signature = bytes.Repeat([]byte{6}, 64)
@@ -597,14 +611,31 @@ func init() {
 			n := len(c18Sers)
 			// scenario: 2 threads x 1 call (all unordered pairs incl. the same serializer twice);
 			// thorough adds 3 threads x 1 call over the pairs' neighbours
-			shape := c.Free(c.Pick(1, 2), "shape")
+			shape := c.Free(c.Pick(1, 3), "shape")
 			var calls [][]int
-			i := c.Free(n, "thread0")
-			j := i + c.Free(n-i, "thread1")
-			calls = [][]int{{i}, {j}}
-			if shape == 1 {
-				k := j + c.Free(n-j, "thread2")
-				calls = append(calls, []int{k})
+			var i, j int
+			switch shape {
+			case 0: // every unordered pair of serializer calls (a call may meet itself)
+				i = c.Free(n, "thread0")
+				j = i + c.Free(n-i, "thread1")
+				calls = [][]int{{i}, {j}}
+			case 1: // thorough: 3 threads x 1 call, every ascending triple over the calls that share the
+				// most code (cbor encoder, bundle writer, signed exchange, cert chain, MI, integrity block)
+				core := c18CoreSers()
+				m := len(core)
+				a := c.Free(m, "thread0")
+				b := a + c.Free(m-a, "thread1")
+				d := b + c.Free(m-b, "thread2")
+				i, j = core[a], core[b]
+				calls = [][]int{{core[a]}, {core[b]}, {core[d]}}
+			case 2: // thorough: 2 threads, the first makes two calls in a row
+				core := c18CoreSers()
+				m := len(core)
+				a := c.Free(m, "thread0.call0")
+				b := c.Free(m, "thread0.call1")
+				d := c.Free(m, "thread1")
+				i, j = core[a], core[d]
+				calls = [][]int{{core[a], core[b]}, {core[d]}}
 			}
 			s := &mc.Sched{}
 			outs := make([][]*c18YieldWriter, len(calls))
@@ -744,7 +775,7 @@ func init() {
 	register(&mc.Property{
 		ID:    "C18",
 		Level: "model_checking",
-		Rule:  "four parts. permutations: 9 serializers x maps of 1..4 entries x every insertion permutation x 6 repeated calls, all bytes equal to the identity-order baseline. histories: every sequence of <=2 (quick) / <=3 (thorough) operations from 18 serializer calls + 4 input mutations + 25 calls whose destination fails at a chosen Write, on one shared world; each output = the same call on a freshly built world in the same logical state, input memory (incl. spare capacity) unchanged, earlier returned slices unchanged. schedules: every unordered pair of the 18 serializer calls as 2 logical threads (thorough: plus every ascending triple as 3 threads) on shared inputs, ALL interleavings at hooked operations (verifhook.Point sites, every Write of the harness-owned writer) with at most 2 preemptions; each thread's bytes = its solo bytes. races (auxiliary): every ordered pair as free-running goroutines in a -race build. Non-trivial = >=2 map entries / non-empty history / a complete schedule; distinct by (scenario, vector).",
+		Rule:  "four parts. permutations: 9 serializers x maps of 1..4 entries x every insertion permutation x 6 repeated calls, all bytes equal to the identity-order baseline. histories: every sequence of <=2 (quick) / <=3 (thorough) operations from 18 serializer calls + 4 input mutations + 25 calls whose destination fails at a chosen Write, on one shared world; each output = the same call on a freshly built world in the same logical state, input memory (incl. spare capacity) unchanged, earlier returned slices unchanged. schedules: every unordered pair of the 18 serializer calls as 2 logical threads (thorough: plus every ascending triple of 8 core calls as 3 threads, and every 2-call thread against a 1-call thread over those 8) on shared inputs, ALL interleavings at hooked operations (verifhook.Point sites, every Write of the harness-owned writer) with at most 2 preemptions; each thread's bytes = its solo bytes. races (auxiliary): every ordered pair as free-running goroutines in a -race build. Non-trivial = >=2 map entries / non-empty history / a complete schedule; distinct by (scenario, vector).",
 		Assumptions: []string{
 			"Go map iteration order is runtime-internal and not behind a seam: order-independence is decided by enumerating every insertion permutation (small maps iterate as rotations of insertion order) with repeated calls, not by controlling the iteration",
 			"the cooperative scheduler explores interleavings at hooked operations only; unsynchronised accesses between hooks are the race detector's job (separate free-running -race pass, auxiliary evidence, not model checking)",
